@@ -28,6 +28,7 @@ M0 == [cfg |-> [mode |-> "ip4", filter |-> "all", maxnodes |-> 16, vote_min |-> 
        reqs |-> <<>>,       \* requests the service sent: [rid, to, ds (for FINDNODE), lookup (BOOLEAN)]
        offdist |-> {},      \* responders that returned a record at a distance that was not requested
        votes |-> <<>>,      \* latest PONG vote per eligible voter: [voter, sock]
+       offered |-> {},      \* ids offered to the table by a session report or an explicit add
        xs |-> <<>>]         \* FINDNODE exchanges: [rid, to, x] with x the request state of NodesExchange.tla, fed with the observed packets
 Init == l = 1 /\ t = T0 /\ m = M0 /\ viols = <<>> /\ sr = [t |-> T0, ret |-> "ok", out |-> <<>>]
 
@@ -70,6 +71,7 @@ MonStep(mm, e) ==
       xs1 == [i \in 1..Len(mm.xs) |-> IF pks # <<>> /\ mm.xs[i].rid = op.req THEN [mm.xs[i] EXCEPT !.x = FoldPk(@, pks, mm.cfg.maxnodes)] ELSE mm.xs[i]]
       xs2 == xs1 \o [i \in 1..Len(newReqs) |-> [rid |-> newReqs[i].rid, to |-> newReqs[i].to, x |-> XA0(newReqs[i].ds), fn |-> newReqs[i].t = "findnode"]]
   IN [mm EXCEPT !.running = @ /\ op.o # "shutdown", !.xs = xs2,
+                !.offered = IF op.o \in {"established", "add_enr"} THEN @ \cup {op.id} ELSE @,
                 !.talks = @ \o newTalks, !.tresp = @ \o newResp, !.reqs = @ \o newReqs,
                 !.table = obs.table, !.local = obs.local]
 
@@ -137,7 +139,20 @@ C11Viol(mm, m2, e) ==
        \cup (IF isBanned /\ ~predBanned THEN {"C11.HonestBanned"} ELSE {})
        \cup (IF ~isBanned /\ predBanned THEN {"C11.NotBanned"} ELSE {})
 
-MonViol(mm, m2, e) == C20Viol(mm, m2, e) \cup C14Viol(mm, e) \cup C11Viol(mm, m2, e)
+\* ------------------------------------------------------------------ C12: routing-table admission and update policy
+\* a table row is <<id, record name, state, direction, log2 distance, seq, shape>>
+Row(tb, id) == tb[CHOOSE i \in 1..Len(tb) : tb[i][1] = id]
+IdsIn(tb) == {tb[i][1] : i \in 1..Len(tb)}
+C12Viol(mm, m2, e) ==
+  LET op == e.op  tb == e.obs.table  prev == mm.table
+      fresh == {id \in IdsIn(tb) : id \notin IdsIn(prev) \/ Row(prev, id)[2] # Row(tb, id)[2]} IN
+  (IF \E id \in fresh : id = "L" \/ ~Contactable(mm.cfg.mode, Row(tb, id)[7]) \/ ~PassesFilter(mm.cfg, Row(tb, id)[7]) THEN {"C12.Admit"} ELSE {})
+  \cup (IF \E id \in IdsIn(tb) \ IdsIn(prev) : id \notin m2.offered THEN {"C12.OnlyBySession"} ELSE {})
+  \cup (IF op.o \in {"response_in", "honest_reply"} /\ \E id \in IdsIn(tb) \cap IdsIn(prev) :
+              Row(prev, id)[2] # Row(tb, id)[2] /\ ~(Row(tb, id)[6] > Row(prev, id)[6])
+        THEN {"C12.ReplaceRule"} ELSE {})
+
+MonViol(mm, m2, e) == C20Viol(mm, m2, e) \cup C14Viol(mm, e) \cup C11Viol(mm, m2, e) \cup C12Viol(mm, m2, e)
 
 Next ==
   /\ l <= Len(Rec) /\ l' = l + 1
